@@ -16,7 +16,11 @@ import (
 
 func symPutPayload() *svc.PutPayload {
 	p := &svc.PutPayload{ID: nondetStringUpTo("id", deep(2)), Tenant: nondetString("tenant", 1)}
-	switch nondetChoice("focus", 6) {
+	switch nondetChoice("focus", 7) {
+	case 6:
+		// unsigned 64-bit scalar carried in metadata
+		v := nondetUint64("big-id")
+		p.BigID = &v
 	case 5:
 		// array of unsigned 64-bit integers carried in metadata
 		switch nondetChoice("ids-len", 3) {
@@ -117,6 +121,7 @@ func VerifC10_p1_put() {
 	verifAssert("field:u", (got.U == nil) == (want.U == nil) && (got.U == nil || *got.U == *want.U))
 	verifAssert("field:ok", (got.OK == nil) == (want.OK == nil) && (got.OK == nil || *got.OK == *want.OK))
 	verifAssert("field:f", (got.F == nil) == (want.F == nil) && (got.F == nil || *got.F == *want.F))
+	verifAssert("metadata:big-id", (got.BigID == nil) == (want.BigID == nil) && (got.BigID == nil || *got.BigID == *want.BigID))
 	verifAssert("metadata:ids", len(got.Ids) == len(want.Ids))
 	for i := range want.Ids {
 		if i < len(got.Ids) {
@@ -197,6 +202,11 @@ func (c *loopClient) Put(ctx context.Context, in *svcpb.PutRequest, opts ...grpc
 	return c.srv.Put(metadata.NewIncomingContext(context.Background(), md.Copy()), in)
 }
 
+func (c *loopClient) Move(ctx context.Context, in *svcpb.MoveRequest, opts ...grpc.CallOption) (*svcpb.MoveResponse, error) {
+	md, _ := metadata.FromOutgoingContext(ctx)
+	return c.srv.Move(metadata.NewIncomingContext(context.Background(), md.Copy()), in)
+}
+
 // VerifC10_p1_invoker: the full client path (goa's invoker + generated
 // BuildPutFunc/EncodePutRequest/DecodePutResponse) against the generated
 // server, with and without metadata already attached to the caller's context.
@@ -226,4 +236,43 @@ func VerifC10_p1_invoker() {
 	} else {
 		verifAssert("invoker:result-type", err != nil)
 	}
+}
+
+// VerifC10_p1_move: validated user types nested two levels deep on both sides:
+// the server refuses an invalid request message, the client an invalid response.
+func VerifC10_p1_move() {
+	lat := nondetFloat64("lat")
+	verifAssume(lat == lat)
+	street := nondetStringUpTo("street", 1)
+	o := &svc.Owner{Name: "n", Addr: &svc.Address{Street: street, Geo: &svc.Geo{Lat: lat}}}
+	valid := lat >= -90 && lat <= 90 && len(street) >= 1
+	md := metadata.MD{}
+	msg, err := client.EncodeMoveRequest(context.Background(), o, &md)
+	verifAssert("move:client-encodes", err == nil && msg != nil)
+	if err != nil {
+		return
+	}
+	calls := 0
+	var got *svc.Owner
+	eps := &svc.Endpoints{Move: func(ctx context.Context, v any) (any, error) {
+		calls++
+		got = v.(*svc.Owner)
+		return got, nil
+	}}
+	srv := server.New(eps, nil)
+	resp, herr := srv.Move(metadata.NewIncomingContext(context.Background(), md.Copy()), msg.(*svcpb.MoveRequest))
+	verifAssert("move:user-code-runs-iff-message-valid", (calls == 1) == valid)
+	if !valid {
+		verifAssert("move:invalid-message-refused", herr != nil && resp == nil)
+		// the same document sent back by a foreign server is refused by the generated client
+		hdr, trlr := metadata.MD{}, metadata.MD{}
+		bad, _ := server.EncodeMoveResponse(context.Background(), o, &hdr, &trlr)
+		out, derr := client.DecodeMoveResponse(context.Background(), bad, hdr, trlr)
+		verifAssert("move:client-refuses-invalid-response", derr != nil && out == nil)
+		return
+	}
+	verifAssert("move:served", herr == nil && resp != nil && got != nil && got.Addr != nil && got.Addr.Geo != nil && got.Addr.Geo.Lat == lat && got.Addr.Street == street)
+	out, derr := client.DecodeMoveResponse(context.Background(), resp, metadata.MD{}, metadata.MD{})
+	r, ok := out.(*svc.Owner)
+	verifAssert("move:client-result", derr == nil && ok && r != nil && r.Addr != nil && r.Addr.Geo != nil && r.Addr.Geo.Lat == lat)
 }
